@@ -39,6 +39,7 @@ Rewrite rules (global, always on; each application is logged):
       structs: derive kept only for Clone/Copy/Default/PartialEq/Eq) #[doc..] and doc comments removed; visibility
       `pub(crate)`/`pub(super)`/private -> `pub` for fields and items; `const fn` -> `fn`.
   R10 byte-string literals b".." in function bodies -> `&[0x.., ..]` (same bytes; Verus does not model literal contents)
+  R13 (opt-in `//@strlit`) string literals ".." in a function body -> `str_lit_v(&[bytes])` with the literal's own bytes
   R12 `if let P = E && C { B }` without `else` -> `if let P = E { if C { B } }` (Verus has no let-chains)
   R2  `trace!(..);` statements removed; `debug_assert!(e[, msg..])` -> `assert(e)` (becomes a
       proof obligation); `debug_assert_eq!(a, b..)` -> `assert(a == b)`.
@@ -165,6 +166,8 @@ def parse_template(text, variant=None):
                     d["attrs"].append(s[len("//@attr"):].strip())
                 elif s.startswith("//@keepattr"):
                     d["keepattr"] = True
+                elif s.startswith("//@strlit"):
+                    d["strlit"] = True
                 elif s.startswith("//@nobody"):
                     d["nobody"] = True
                 elif s.startswith("//@"):
@@ -450,6 +453,23 @@ def splice_fn(text, d, log):
         if c:
             log.append(f"RESUB x{c}: /{pat[:60]}/ => {rep[:60]!r}")
     text = rewrite_let_chains(text, log)
+    if d.get("strlit"):
+        # R13 (opt-in): string literals "..." -> str_lit_v(&[bytes]) with the literal's own UTF-8 bytes, so that the contract
+        # can speak about the bytes of the constants the function emits (Verus does not expose literal contents as bytes)
+        toks = rs.tokenize(text)
+        outp = []
+        for t in toks:
+            if t.kind == "str" and t.text.startswith('"'):
+                try:
+                    val = eval(t.text)
+                except Exception:
+                    val = None
+                if isinstance(val, str):
+                    outp.append("str_lit_v(&[" + ", ".join(f"0x{b:02x}u8" for b in val.encode()) + "])")
+                    log.append(f"R13 string literal {t.text} -> str_lit_v(its bytes)")
+                    continue
+            outp.append(t.text)
+        text = "".join(outp)
 
     toks = rs.tokenize(text)
     n = len(toks)
